@@ -5,7 +5,9 @@
 // directories, then the -idirafter directories in command-line order.
 static int captured;
 // in cbmc mode exit() ends the path: an exit before cc1 read its first file must fail HERE
-#define VERIF_ON_EXIT(code) VASSERT(captured, "the driver reaches cc1's first file without a diagnostic")
+static int expect_usage;     // h_last_option: the command line is incomplete, the driver must say so and stop
+#define VERIF_ON_EXIT(code) do { VASSERT(captured || (expect_usage && (code) != 0), "the driver reaches cc1's first file without a diagnostic (or, for an incomplete command line, exits non-zero)"); \
+                                 if (expect_usage) VCOVER(); } while (0)      /* exit ends the path under cbmc: the vacuity witness of h_last_option sits here */
 #include "common.h"
 #ifndef NATIVE
 #define TRY(stmt) do { stmt; } while (0)
@@ -65,6 +67,7 @@ File **get_input_files(void) { return NULL; }
 Obj *parse(Token *t) { return NULL; }
 void codegen(Obj *p, FILE *o) {}
 void hashmap_test(void) {}
+void join_adjacent_string_literals(Token *tok) {}
 // first file read by cc1(): the include path list is final here
 Token *tokenize_file(char *p) {
   captured = 1;
@@ -109,4 +112,24 @@ void h_args_idirafter2(void) {
   static char *argv[] = {a0, "-idirafter", "z1", "-idirafter", "z2", "-Ia", "-cc1", "-cc1-input", "x.c", "x.c", NULL};
   static const char *const exp[] = {"a", SYS, "z1", "z2", NULL};
   run(argv, 10, exp);
+}
+
+
+// C13: an option that takes an argument given as the LAST word of the command line (-DLASTOPT selects it): the real
+// main()/parse_args()/take_arg() must report it (usage, exit != 0) and must not read beyond argv (argv[argc] is NULL;
+// cbmc's pointer checks see a dereference of it).
+#ifndef LASTOPT
+#define LASTOPT "-o"
+#endif
+void h_last_option(void) {
+  HAVOC_IN();
+  static char a0[] = "/x/cc", a1[] = "-c", a2[] = "x.c", a3[] = LASTOPT;
+  char **argv = malloc(5 * sizeof(char *));
+  __CPROVER_assume(argv != 0);
+  argv[0] = a0; argv[1] = a1; argv[2] = a2; argv[3] = a3; argv[4] = NULL;
+  static const char *const none[] = {NULL};
+  expect = none;
+  expect_usage = 1;
+  TRY(chibicc_main(4, argv));
+  VASSERT(verif_diag && verif_exit_code != 0, "an option without its argument ends in a diagnostic exit");
 }
